@@ -102,15 +102,12 @@ Definition round_to (m : option Z) (count : nat) : option Z :=
 Definition round_min_trials (m : Z) : option Z := fold_left round_to (fl_sustains fb) (Some m).
 Definition model_min_trials : option Z := round_min_trials min_trials_raw.
 
-(** [Pin.validate] (through [get_trial_numbers] -> [map_block_trial_ranges]) and the
-    [AtLeastKInARow] loop of [Block.__validate] call [trials_per_sample()] *before*
-    [min_trials] is rounded, and the value is cached in [_trials_per_sample]. *)
-Definition cached_early : bool :=
-  existsb (fun c => match c with FPin _ _ _ _ | FAtLeast _ _ _ _ => true | _ => false end) (fl_constraints fb).
-
-(** [trials_per_sample()] = [max([self.min_trials, self._trials_per_sample_for_crossing()])] *)
+(** [trials_per_sample()] = [max([self.min_trials, self._trials_per_sample_for_crossing()])].
+    ([Pin.validate] and the [AtLeastKInARow] loop of [Block.__validate] call it before
+    [min_trials] is rounded, but [Block.__init__] resets the cached value when the
+    rounding changes [min_trials] - /repo commit f8f66a6.) *)
 Definition model_trials : option Z :=
-  match trials_for_crossings, (if cached_early then Some min_trials_raw else model_min_trials) with
+  match trials_for_crossings, model_min_trials with
   | Some t, Some m => Some (Z.max m (Z.of_nat t))
   | _, _ => None
   end.
